@@ -125,6 +125,17 @@ CLAIMS = {
          "reader), no separate theorem yet."),
    technique="Coq proof (line lemmas + induction over the prefix) + generated source tables + differential correspondence",
    ref="6 (C13)"),
+ "C14": dict(
+   text=("PARTIAL. The model has no bound anywhere, so C02_parse, C03_*, C07_roundtrip, C17_* hold for all lengths. "
+         "C14_buffer_inventory: every fixed-size char buffer and alloca of lib/ and util/, REGENERATED from the source on every "
+         "run, must be exactly the accounted-for list (none holds a key, value, section, comment or line; a re-introduced "
+         "char buf[BUFSIZ] breaks the obligation); C14_ext_whole, C14_writer_comment_whole (no truncation in the extended "
+         "getter and the writer), C14_paths (layer paths below PATH_MAX are composed whole). Not covered: stack exhaustion by "
+         "alloca, OS limits, econftool's 1024-byte --delimiters buffer (finding F21, listed under C19). Tie: each field kind x "
+         "lengths around BUFSIZ, 2*BUFSIZ, 64Ki/1Mi, NAME_MAX through read, getters, merge, write, re-read, setters, layered "
+         "read and option strings; the oracle checks lengths."),
+   technique="Coq proof (unbounded model; generated buffer inventory as an obligation) + differential length sweeps",
+   ref="6 (C14)"),
  "C15": dict(
    text=("Theorems: C15_options_ok (every option string of documented items — any order, repeated — is accepted and each item has "
          "its documented effect, a repeated item acting as its last occurrence: tokenizer model = fold of item meanings), "
@@ -153,6 +164,19 @@ CLAIMS = {
          "Tie: ext values of every key and path queries on grammar-generated files read by absolute and relative name."),
    technique="Coq proof (fold lemmas over line meanings, on top of the parser theorem) + differential correspondence",
    ref="6 (C17)"),
+ "C18": dict(
+   text=("PARTIAL. Theorems: C18_frame (what a call returns and does to the caller's own objects depends on the shared state only "
+         "through the settings written by the documented global setters; a non-setter call leaves them alone; all else a call "
+         "writes is the error-location record), C18_noninterference (for EVERY interleaving of any number of threads running "
+         "arbitrary call sequences on private objects, trees and callbacks, each thread obtains exactly the results of running "
+         "alone), C18_shared_state_inventory (all variables with static storage, regenerated from freshly compiled objects: "
+         "read-only table, thread-local scratch, settings, error location — a new static buffer breaks the obligation). The "
+         "theorem speaks about sequentially consistent interleavings of modelled calls; torn accesses, compiler reordering and "
+         "libc's own locks are runtime: there a ThreadSanitizer build runs 2..16 threads of independent scenarios, compares "
+         "each thread with its serial model run and treats every race report not located in the exempt record as a failing "
+         "schedule."),
+   technique="Coq proof (frame property + induction over schedules) + generated static-storage inventory + ThreadSanitizer runs",
+   ref="6 (C18)"),
  "C10": dict(
    text=("Theorems C10_readonly / C10_sequences / C10_later_results / C10_merge_inputs: in the model every query (failing ones "
          "included), any finite sequence of them, and a merge leave the object(s) unchanged, for all objects. The model is tied "
